@@ -48,7 +48,7 @@ def prelude():
     for ty, var, short, sel in LAYERS[:5]:
         b.append("    pub uninterp spec fn spec_prop_%s(o: Rc<%s>, prop: PacketPropType) -> Result<Rc<Object>, RTError>;" % (short, ty))
         b.append("    #[verifier::external_body] pub fn exec_prop_%s(&self, o: Rc<%s>, prop: PacketPropType, setval: Option<Rc<Object>>, line: usize) -> (r: Result<Rc<Object>, RTError>)\n"
-                 "        ensures setval is None ==> r == VM::spec_prop_%s(o, prop) { unimplemented!() }" % (short, ty, short))
+                 "        ensures setval is None ==> r == VM::spec_prop_%s(o, prop), r matches Err(e) ==> e.line == line { unimplemented!() }" % (short, ty, short))
     b.append("}")
     with open(core.VERIF + "/units/dollar/spec.rs") as f:
         b.append(f.read())
@@ -66,6 +66,8 @@ UNIT = dict(
     items=[
         dict(kind="raw", label="prelude", text=prelude()),
         dict(kind="fn", file=P, path="VM::get_inner", ret="r", props=["C16", "C08"], decreases="depth",
-             ensures=["descends(*obj, depth as nat, r)"], rewrites=RW, impl="VM"),
+             ensures=["descends(*obj, depth as nat, r)",
+                      # C13: an error met on the way (raised by a layer getter) carries the instruction's line
+                      "r matches Err(e) ==> e.line == line"], rewrites=RW, impl="VM"),
     ],
 )
